@@ -166,7 +166,7 @@ def blk_two(ia: Optional[int], o1: int, z1: int, o2: int, z2: int, start: int, s
 def _run_blk_history(ia, o1, z1, vals, sched, ops, nb, with_b2):
     """Build the structure, replay the history with the given lookup schedule; return (objects, model)."""
     with untraced():
-        bi = gtirb.ByteInterval(address=None, size=10, uuid=UUID(int=4))
+        bi = gtirb.ByteInterval(address=None, size=SHARD.get("isize", 10), uuid=UUID(int=4))
         bj = gtirb.ByteInterval(address=0x100, size=10, uuid=UUID(int=40))
         ballast = [gtirb.DataBlock(offset=TOP, size=0, byte_interval=bi, uuid=UUID(int=100 + i)) for i in range(nb)]
         b2 = gtirb.DataBlock(offset=3, size=2, byte_interval=bi, uuid=UUID(int=6)) if with_b2 else None
